@@ -291,6 +291,55 @@ func vCrop(stbl *mp4.StblBox, k uint32) string {
 	return strings.Join(toks, " ")
 }
 
+// vWarm asks the lookup helpers of a sample table about its first, middle and last sample, leaving any lookup
+// cursor / cache of the boxes at the END of the tables (hidden state between calls: the routines under test must answer
+// the same on boxes that have been queried before as on fresh ones).
+func vWarm(s *mp4.StblBox) {
+	vTry(func() {
+		n := s.Stsz.GetNrSamples()
+		for _, k := range []uint32{1, n/2 + 1, n} {
+			if k < 1 || k > n {
+				continue
+			}
+			_, _ = s.Stts.GetDecodeTime(k)
+			_ = s.Stts.GetDur(k)
+			cn, _, err := s.Stsc.ChunkNrFromSampleNr(int(k))
+			if err == nil {
+				_ = s.Stsc.GetChunk(uint32(cn))
+				_ = s.Stsc.GetSampleDescriptionID(cn)
+				if s.Stco != nil {
+					_, _ = s.Stco.GetOffset(cn)
+				} else if s.Co64 != nil {
+					_, _ = s.Co64.GetOffset(cn)
+				}
+			}
+			_, _ = s.Stsc.GetContainingChunks(k, k)
+			if s.Ctts != nil {
+				_ = s.Ctts.GetCompositionTimeOffset(k)
+			}
+			if s.Stss != nil {
+				_ = s.Stss.IsSyncSample(k)
+			}
+			_, _ = s.Stsz.GetTotalSampleSize(k, k)
+		}
+		if t := vSttsTotal(s.Stts); t > 0 {
+			_, _ = s.Stts.GetSampleNrAtTime(t - 1)
+		}
+	})
+}
+
+// vCaseNr counts the table cases: every second one runs on warmed boxes (vWarm).
+var vCaseNr int
+
+// vTwice runs a read-only routine twice on the same boxes: the second answer must be the first.
+func vTwice(run func() string) string {
+	a := run()
+	if b := run(); a != b {
+		return "hidden-state/" + a + "/second-call/" + b
+	}
+	return a
+}
+
 func vRunCase(f []string) string {
 	op, arg := f[1], f[2]
 	switch op {
@@ -311,6 +360,11 @@ func vRunCase(f []string) string {
 		}
 		stbls = append(stbls, s)
 	}
+	if vCaseNr++; vCaseNr%2 == 1 && (op == "endtime" || op == "ends" || op == "fill" || op == "virt") {
+		for _, s := range stbls {
+			vWarm(s)
+		}
+	}
 	a := strings.Split(arg, ":")
 	num := func(i int) uint64 { v, _ := strconv.ParseUint(a[i], 10, 64); return v }
 	switch op {
@@ -318,30 +372,34 @@ func vRunCase(f []string) string {
 		return vCrop(stbls[0], uint32(num(0)))
 	case "endtime": // arg = timescale:ms:handler
 		moov := &mp4.MoovBox{Traks: []*mp4.TrakBox{vTrak(1, uint32(num(0)), a[2], stbls[0])}}
-		res := "panic"
-		vTry(func() {
-			et, ets, err := findEndTime(moov, int(num(1)))
-			if err != nil {
-				res = "err"
-			} else {
-				res = fmt.Sprintf("ok/%d/%d", et, ets)
-			}
+		return "endtime=" + vTwice(func() string {
+			res := "panic"
+			vTry(func() {
+				et, ets, err := findEndTime(moov, int(num(1)))
+				if err != nil {
+					res = "err"
+				} else {
+					res = fmt.Sprintf("ok/%d/%d", et, ets)
+				}
+			})
+			return res
 		})
-		return "endtime=" + res
 	case "ends": // arg = timescale:endTime:endTimescale
 		traks := []*mp4.TrakBox{vTrak(1, uint32(num(0)), "vide", stbls[0])}
-		res := "panic"
-		vTry(func() {
-			tos, err := findTrakEnds(traks, num(1), num(2))
-			if err != nil {
-				res = "err"
-			} else {
-				to := tos[1]
-				res = fmt.Sprintf("ok/%d/%d/%d.%d.%d", to.lastSampleNr, to.endTime, to.lastChunk.ChunkNr,
-					to.lastChunk.StartSampleNr, to.lastChunk.NrSamples)
-			}
+		return "ends=" + vTwice(func() string {
+			res := "panic"
+			vTry(func() {
+				tos, err := findTrakEnds(traks, num(1), num(2))
+				if err != nil {
+					res = "err"
+				} else {
+					to := tos[1]
+					res = fmt.Sprintf("ok/%d/%d/%d.%d.%d", to.lastSampleNr, to.endTime, to.lastChunk.ChunkNr,
+						to.lastChunk.StartSampleNr, to.lastChunk.NrSamples)
+				}
+			})
+			return res
 		})
-		return "ends=" + res
 	case "fill": // arg = k1:k2:... (last sample number per track)
 		var traks []*mp4.TrakBox
 		tos := map[uint32]*trakOut{}
